@@ -25,24 +25,43 @@ Proof.
   rewrite skipn_all in R. simpl in R. injection R as ->. exact P.
 Qed.
 
-(* a line entered in a sub-mode leaves the ACLs alone, and in a tunnel-group section also the group-policies *)
+(* a line entered in a sub-mode leaves the ACLs alone, in a tunnel-group section also the group-policies,
+   in a group-policy also the tunnel-groups *)
 Theorem tsub_keeps_acls d w d' : tsub d w = TOk d' -> td_acls d' = td_acls d.
 Proof.
   unfold tsub. destruct (td_mode d) as [|g|t sec]; [discriminate| |].
   - destruct (vlookup g (td_gps d)) as [b|]; [|discriminate].
-    destruct w as [|x w]; [intros H; injection H as <-; reflexivity|].
-    repeat match goal with
-           | |- context [match ?s with EmptyString => _ | String _ _ => _ end] => destruct s
-           | |- context [match ?a with Ascii.Ascii _ _ _ _ _ _ _ _ => _ end] => destruct a
-           | |- context [if ?b then _ else _] => destruct b
-           | |- context [match ?l with [] => _ | _ :: _ => _ end] => destruct l
-           end; intros H; try discriminate; injection H as <-; reflexivity.
+    destruct (is_no w) as [l|].
+    + destruct (has_line l b); intros H; [injection H as <-; reflexivity | discriminate].
+    + destruct (filter_ref w) as [a|].
+      * destruct (vhas a (td_acls d)); intros H; [injection H as <-; reflexivity | discriminate].
+      * intros H; injection H as <-; reflexivity.
   - destruct (vlookup t (td_tgs d)) as [[ty secs]|]; [|discriminate].
-    destruct w as [|x w]; [intros H; injection H as <-; reflexivity|].
-    repeat match goal with
-           | |- context [match ?s with EmptyString => _ | String _ _ => _ end] => destruct s
-           | |- context [match ?a with Ascii.Ascii _ _ _ _ _ _ _ _ => _ end] => destruct a
-           | |- context [if ?b then _ else _] => destruct b
-           | |- context [match ?l with [] => _ | _ :: _ => _ end] => destruct l
-           end; intros H; try discriminate; injection H as <-; reflexivity.
+    destruct (is_no w) as [l|].
+    + destruct (has_line l _); intros H; [injection H as <-; reflexivity | discriminate].
+    + destruct (policy_ref w) as [g|].
+      * destruct (vhas g (td_gps d)); intros H; [injection H as <-; reflexivity | discriminate].
+      * intros H; injection H as <-; reflexivity.
+Qed.
+
+Theorem tsub_in_section_keeps_policies d w d' t sec : td_mode d = TTg t sec -> tsub d w = TOk d' -> td_gps d' = td_gps d.
+Proof.
+  unfold tsub. intros ->.
+  destruct (vlookup t (td_tgs d)) as [[ty secs]|]; [|discriminate].
+  destruct (is_no w) as [l|].
+  - destruct (has_line l _); intros H; [injection H as <-; reflexivity | discriminate].
+  - destruct (policy_ref w) as [g|].
+    + destruct (vhas g (td_gps d)); intros H; [injection H as <-; reflexivity | discriminate].
+    + intros H; injection H as <-; reflexivity.
+Qed.
+
+Theorem tsub_in_policy_keeps_tunnel_groups d w d' g : td_mode d = TGp g -> tsub d w = TOk d' -> td_tgs d' = td_tgs d.
+Proof.
+  unfold tsub. intros ->.
+  destruct (vlookup g (td_gps d)) as [b|]; [|discriminate].
+  destruct (is_no w) as [l|].
+  - destruct (has_line l b); intros H; [injection H as <-; reflexivity | discriminate].
+  - destruct (filter_ref w) as [a|].
+    + destruct (vhas a (td_acls d)); intros H; [injection H as <-; reflexivity | discriminate].
+    + intros H; injection H as <-; reflexivity.
 Qed.
